@@ -114,6 +114,22 @@ class C12(Prop):
             yield ("accept_iff_pep440", {"kind": kind, "s": s})
             if kind == "SpecifierRx" and k % 2 == 0:
                 yield ("clause_in_requirement_iff_specifier", {"s": s})
+            if k % 3 == 0:
+                # acceptance is a property of the string alone: the same answer whatever was parsed before it (a cache of
+                # parses keyed on a folded spelling would let a look-alike of an accepted string through)
+                yield ("accept_after_history", {"kind": kind, "first": s, "seed": rng.randrange(1 << 30)})
+            if k % 9 == 0:
+                # … with every letter that has a non-ASCII look-alike folding onto it somewhere a letter is free text
+                # (the local label)
+                v = G.struct(rng)
+                v["local"] = [rng.choice(["k", "K", "sk", "Ki", "kelvin", "s", "I", "ubuntuk"])] + \
+                             [rng.choice(["1", "k", "x"]) for _ in range(rng.choice([0, 0, 1]))]
+                t = G.spell(rng, v)
+                if rng.random() < 0.5:
+                    yield ("accept_after_history", {"kind": "VersionRx", "first": t, "seed": rng.randrange(1 << 30)})
+                else:
+                    yield ("accept_after_history", {"kind": "SpecifierRx", "first": rng.choice(["==", "!="]) + t,
+                                                    "seed": rng.randrange(1 << 30)})
 
     def check_law(self, law, inp):
         if law == "accept_iff_pep440":
@@ -129,6 +145,25 @@ class C12(Prop):
                 raise RuntimeError("spec oracle unavailable: " + spec)
             if real != spec:
                 return False, f"{what}({s!r}) -> {_w(real)} but PEP 440 language membership is {spec}"
+            return True, ""
+        if law == "accept_after_history":
+            import random
+            kind, first = inp["kind"], inp["first"]
+            what = "Version" if kind == "VersionRx" else "Specifier"
+            if any(len(run) > 4000 for run in _digit_runs(first)):
+                return True, "beyond the interpreter's int limit (listed separately)"
+            r = random.Random(inp["seed"])
+            twins = _twins(first, r)
+            accepts(kind, first)
+            accepts(kind, first.lower()); accepts(kind, first.upper())
+            for t in twins:
+                real = accepts(kind, t)
+                spec = drv().ask("\t".join(["s.rx.match", kind, core.enc(t)]))
+                if spec not in ("0", "1"):
+                    raise RuntimeError("spec oracle unavailable: " + spec)
+                if real != spec:
+                    return False, (f"after {what}({first!r}) was parsed, {what}({t!r}) -> {_w(real)} but PEP 440 language "
+                                   f"membership is {spec}")
             return True, ""
         if law == "clause_in_requirement_iff_specifier":
             from packaging.requirements import InvalidRequirement, Requirement
@@ -151,6 +186,32 @@ class C12(Prop):
 
 def _w(x):
     return {"1": "accepted", "0": "rejected"}.get(x, x)
+
+
+# code points that str.lower()/str.upper()/str.casefold()/NFKC map onto ASCII letters, digits or separators: a string that
+# differs from an accepted one only by such substitutions is a different string and must be judged on its own
+_LOOKALIKES = {"k": "\u212a", "K": "\u212a", "s": "\u017f", "S": "\u017f", "i": "\u0130\u0131", "I": "\u0130\u0131",
+               "a": "\uff41\u00aa", "b": "\uff42", "c": "\uff43", "d": "\uff44", "e": "\uff45", "p": "\uff50", "r": "\uff52",
+               "t": "\uff54", "v": "\uff56", "o": "\uff4f\u00ba", "l": "\uff4c", "h": "\uff48", "w": "\uff57",
+               "0": "\uff10\u0660", "1": "\uff11\u00b9\u0661", "2": "\u00b2\uff12", "3": "\u00b3", "9": "\uff19",
+               ".": "\uff0e\u3002", "-": "\u2010\uff0d", "_": "\uff3f", "+": "\uff0b", "!": "\uff01", "=": "\uff1d",
+               "<": "\uff1c", ">": "\uff1e", "~": "\uff5e", "*": "\uff0a", " ": "\u00a0\u2003\u3000"}
+
+
+def _twins(s, r):
+    out = []
+    pos = [i for i, c in enumerate(s) if c in _LOOKALIKES]
+    r.shuffle(pos)
+    for i in pos[:6]:
+        for alt in _LOOKALIKES[s[i]]:
+            out.append(s[:i] + alt + s[i + 1:])
+    if pos:
+        t = list(s)
+        for i in pos:
+            if r.random() < 0.5:
+                t[i] = r.choice(_LOOKALIKES[s[i]])
+        out.append("".join(t))
+    return out
 
 
 def _digit_runs(s):
